@@ -25,7 +25,7 @@ def make(rng, sid):
     p = gen_tree.shape_params(rng, shape)
     tg = gen_tree.Tagger()
     t = gen_tree.random_tree(rng, p["dirs"], p["name"], p["dsfx"], p["postfixes"], tg, decoys=p["decoys"],
-                             names=[b"a.conf", b"b.conf", b"10-a.conf", b"Z.conf", b"nosuffix"])
+                             names=[b"a.conf", b"b.conf", b"10-a.conf", b"Z.conf", b"nosuffix"], links=False)
     # assign owner/group/link-ness
     attrs = {}
     new = []
